@@ -1,5 +1,8 @@
 -------------------------- MODULE SupercellTrace --------------------------
 (* Conformance of the implementation's supercells with Supercell.tla.       *)
+(* Event fields (ucell, smat, sty, res, snf) deliberately differ from variable *)
+(* names: SANY's linter warns per record field that shadows a name, which   *)
+(* costs ~40 ms per event.                                                  *)
 (* Every event is one call get_supercell(cell, S, is_old_style) on the real *)
 (* code with its projected result (harness/props/c04.py).  The step machine *)
 (* is run on the event's input (logged fields bind cell, S, style); at the  *)
@@ -24,8 +27,8 @@ TInit == Init /\ ev \in Events
 
 TChoose ==
   /\ pc = "choose"
-  /\ cell' = E.cell /\ S' = E.S /\ style' = E.style
-  /\ pc' = IF Det(E.S) = 0 THEN "reject" ELSE IF E.style = "classic" THEN "frame" ELSE "snf"
+  /\ cell' = E.ucell /\ S' = E.smat /\ style' = E.sty
+  /\ pc' = IF Det(E.smat) = 0 THEN "reject" ELSE IF E.sty = "classic" THEN "frame" ELSE "snf"
   /\ UNCHANGED <<multi, P, sur, kept, extracted, result>>
 
 TSNF == SNFWith(E.snf)
@@ -37,25 +40,25 @@ TSpec == TInit /\ [][TNext]_tvars
 
 AtEnd == pc = "done"
 
-ImplRequirementCount      == AtEnd /\ E.result.status = "built" => ReqCount(E.cell, E.S, E.result)
-ImplRequirementNoDup      == AtEnd /\ E.result.status = "built" => ReqNoDuplicates(E.cell, E.S, E.result)
-ImplRequirementImageOf    == AtEnd /\ E.result.status = "built" => ReqImageOf(E.cell, E.S, E.result)
-ImplRequirementMaps       == AtEnd /\ E.result.status = "built" => ReqMaps(E.cell, E.S, E.result)
-ImplRequirementLattice    == AtEnd /\ E.result.status = "built" => E.result.latticeOK
-ImplRequirementAttributes == AtEnd /\ E.result.status = "built" => E.result.attrsOK
-ImplRequirementExact      == AtEnd /\ E.result.status = "built" => E.result.exact
-ImplAccepts == AtEnd => ReqAccepts(E.cell, E.S, E.result)
-ImplRejects == AtEnd => ReqRejects(E.cell, E.S, E.result)
+ImplRequirementCount      == AtEnd /\ E.res.status = "built" => ReqCount(E.ucell, E.smat, E.res)
+ImplRequirementNoDup      == AtEnd /\ E.res.status = "built" => ReqNoDuplicates(E.ucell, E.smat, E.res)
+ImplRequirementImageOf    == AtEnd /\ E.res.status = "built" => ReqImageOf(E.ucell, E.smat, E.res)
+ImplRequirementMaps       == AtEnd /\ E.res.status = "built" => ReqMaps(E.ucell, E.smat, E.res)
+ImplRequirementLattice    == AtEnd /\ E.res.status = "built" => E.res.latticeOK
+ImplRequirementAttributes == AtEnd /\ E.res.status = "built" => E.res.attrsOK
+ImplRequirementExact      == AtEnd /\ E.res.status = "built" => E.res.exact
+ImplAccepts == AtEnd => ReqAccepts(E.ucell, E.smat, E.res)
+ImplRejects == AtEnd => ReqRejects(E.ucell, E.smat, E.res)
 (* the SNF result recorded from SNF3x3 obeys its contract whenever it is used *)
 ImplSNFContract ==
   (pc = "snf" /\ ~IsDiagonal(S)) => SNFContract(S, E.snf)
 
-ConformsStatus == AtEnd => E.result.status = result.status
+ConformsStatus == AtEnd => E.res.status = result.status
 ConformsOrder ==
-  (AtEnd /\ E.result.status = "built" /\ result.status = "built") =>
-     /\ Len(E.result.atoms) = Len(result.atoms)
+  (AtEnd /\ E.res.status = "built" /\ result.status = "built") =>
+     /\ Len(E.res.atoms) = Len(result.atoms)
      /\ \A k \in 1..Len(result.atoms) :
-           /\ E.result.atoms[k].a = result.atoms[k].a
-           /\ SameClass(S, cell.D, E.result.atoms[k].u, result.atoms[k].u)
-     /\ E.result.s2u = result.s2u /\ E.result.u2s = result.u2s
+           /\ E.res.atoms[k].a = result.atoms[k].a
+           /\ SameClass(S, cell.D, E.res.atoms[k].u, result.atoms[k].u)
+     /\ E.res.s2u = result.s2u /\ E.res.u2s = result.u2s
 =============================================================================
